@@ -340,6 +340,14 @@ def d2c_handshake_replies_do_not_stamp_liveness(ctx):
     ctx.chk.floor("D2", "last_received := Some(..) stores in process_uplink_packet", n, 1)
 
 
+def d2d_hearing_anything_refreshes_liveness(ctx):
+    """"torn down only when it has heard nothing for the configured timeout": what counts as hearing is every datagram that is not
+    a handshake reply, on every path of the receive handler (an early return for, say, a keepalive echo without an RTT sample would
+    let an idle but healthy link time out)."""
+    from . import C09
+    C09.liveness_stamp(ctx, rule="D2")
+
+
 def d2b_connected_links_have_a_receive_stamp(ctx):
     """Detection rests on it: a connected link is timed out iff it has a receive stamp older than the timeout (D2), so every
     `connected := true` must come with `last_received := Some(..)` and every `last_received := None` with a disconnect."""
@@ -347,7 +355,7 @@ def d2b_connected_links_have_a_receive_stamp(ctx):
     C10.connected_implies_received(ctx, "D2")
 
 
-RULES = [d2b_connected_links_have_a_receive_stamp, d2c_handshake_replies_do_not_stamp_liveness, d7_backoff_does_not_accumulate, d1_who_tears_down, d2_liveness_predicate, d3_retry_spacing, d4_clean_rejoin, d5_survivors, d6_configured_timeout_applied]
+RULES = [d2d_hearing_anything_refreshes_liveness, d2b_connected_links_have_a_receive_stamp, d2c_handshake_replies_do_not_stamp_liveness, d7_backoff_does_not_accumulate, d1_who_tears_down, d2_liveness_predicate, d3_retry_spacing, d4_clean_rejoin, d5_survivors, d6_configured_timeout_applied]
 
 
 def run(ctx):
